@@ -421,7 +421,7 @@ PER_STEP_TYPES = ('niter', 'restart', 'dt', 'u')
 def project_stats(rec, stats):
     """projection of the real statistics dictionary to the entries modelled in PfasstSerial.tla"""
     if stats is None:
-        return dict(has_stats=False, stats=[], filtered=[], logged_unchanged=True)
+        return dict(has_stats=False, stats=[], filtered=[], filtered_all=[], logged_unchanged=True)
     from pySDC.helpers.stats_helper import get_sorted
     ent = []
     logged_ok = True
@@ -429,7 +429,7 @@ def project_stats(rec, stats):
     for (t, k, h) in rec.all_post_steps:
         seen_ps.setdefault((t, k), set()).add(h)
     for key, v in stats.items():
-        if key.type not in PER_STEP_TYPES + ('_recomputed',):
+        if key.type not in PER_STEP_TYPES + ('_recomputed', 'residual_post_iteration'):
             continue
         if key.type == 'u':
             val = 0
@@ -439,6 +439,8 @@ def project_stats(rec, stats):
             val = rec.tick(v)
         elif key.type == '_recomputed':
             val = 1 if v else 0
+        elif key.type == 'residual_post_iteration':
+            val = 0
         else:
             val = int(v)
         ent.append([key.type, rec.tick(key.time), int(key.iter), int(key.num_restarts or 0), int(key.process),
@@ -447,7 +449,12 @@ def project_stats(rec, stats):
     for T in PER_STEP_TYPES:
         got = get_sorted(stats, type=T, recomputed=False, sortby='time')
         filtered.append([T, [[rec.tick(t), (0 if T == 'u' else (rec.tick(v) if T == 'dt' else int(v)))] for t, v in got]])
-    return dict(has_stats=True, stats=ent, filtered=filtered, logged_unchanged=logged_ok)
+    from pySDC.helpers.stats_helper import filter_stats
+    fall = []
+    for key, v in filter_stats(stats, recomputed=False).items():
+        if key.type in PER_STEP_TYPES:
+            fall.append([key.type, rec.tick(key.time), 0 if key.type == 'u' else (rec.tick(v) if key.type == 'dt' else int(v))])
+    return dict(has_stats=True, stats=ent, filtered=filtered, filtered_all=fall, logged_unchanged=logged_ok)
 
 
 def run_traced(description, controller_params, num_procs, u0_fn, t0, Tend, unit=None, script=None, mode='lattice',
